@@ -46,7 +46,6 @@ impl TryDecode for RxPacket {
     }
 }
 
-#[cfg_attr(kani, repr(u8))] // verification hook: explicit tag instead of a niche, no effect on safe code
 pub(crate) enum TxPacket<'a> {
     Connect(ConnectTx<'a>),
     Publish(PublishTx<'a>),
